@@ -11,6 +11,8 @@ use std::cell::RefCell;
 /// Point of [crate::meet_pass::dispatch::run_dispatch] at which a snapshot is taken
 #[derive(Clone, Copy, Debug, PartialEq, Eq)]
 pub enum DispatchPhase {
+    /// at the top of the inner loop, before the selected train is asked to advance (again)
+    AdvanceAttempt,
     /// after a train was advanced and the free paths of the other trains were updated
     AfterAdvance,
     /// after a train was rewound to its last fixed position and free paths were updated
